@@ -72,6 +72,9 @@ class ImmutableListMixin:
     def sort(self, key: t.Any = None, reverse: t.Any = False) -> t.NoReturn:
         _immutable_error(self)
 
+    def clear(self) -> t.NoReturn:
+        _immutable_error(self)
+
 
 class ImmutableDictMixin(t.Generic[K, V]):
     """Makes a :class:`dict` immutable.
